@@ -350,6 +350,14 @@ class Injector:
             if got:
                 b.violate('entry_dispatch', self.inject.get(t, 'nested'), 'unexpected_entry', 'tick %d: no exception expected, %s taken' % (t, got))
             return
+        if want in got and (rec['post'][1] & 0x1F) == 0x1a and want in ('hyptrap', 'svc'):
+            # exception class of the syndrome written for an entry to Hyp mode (only HSR.EC is compared; ISS/IL are not)
+            kind0 = self.inject.get(t)
+            ec = (b.cores[0].arm.registers.hsr.value >> 26) & 0x3F
+            want_ec = {'hyptrap': 0x13 if kind0 == 'smc' else 0x01, 'svc': 0x11}[want]
+            if kind0 in ('hyptrap', 'smc', 'svc') and ec != want_ec:
+                b.violate('entry_hsr', want, 'hsr_ec', 'entry to Hyp mode for %s: HSR.EC = %#x, expected %#x' % (kind0, ec, want_ec))
+            b.cover.add('hsr|%s|%x' % (kind0, ec))
         if want not in got:
             b.violate('entry_dispatch', want, 'not_taken' if not got else 'wrong_kind',
                       'tick %d: expected %s entry, dispatched %s; pre cpsr=%#x pc=%#x opcode=%#x' % (t, want, got or 'none', rec['pre'][1], rec['pre_pc'], b.cores[0].arm.opcode))
